@@ -303,6 +303,26 @@ type action struct {
 	src  srcSpec
 	viaC bool // go through http.NewResponseController where it offers the method
 	name string
+	// String only: the format and the variadic arguments handed to c.String (format == "" with
+	// noFmt == false means the legacy form c.String(code, "%s", data))
+	format string
+	fargs  []any
+	isFmt  bool
+}
+
+// strCall returns the format and arguments of a String action.
+func (a action) strCall() (string, []any) {
+	if a.isFmt {
+		return a.format, a.fargs
+	}
+	return "%s", []any{a.data}
+}
+
+// strExpected is the ORACLE for String: the bytes fmt produces for (format, args...), computed here,
+// independently of fox. The model and the specification take it as the bytes String was given.
+func (a action) strExpected() string {
+	f, v := a.strCall()
+	return fmt.Sprintf(f, v...)
 }
 
 func (a action) String() string {
@@ -314,7 +334,8 @@ func (a action) String() string {
 	case "ReadFrom":
 		return fmt.Sprintf("ReadFrom(%v)", a.src)
 	case "String":
-		return fmt.Sprintf("c.String(%d,%q)", a.code, a.data)
+		f, v := a.strCall()
+		return fmt.Sprintf("c.String(%d,%q,%d args %q)", a.code, f, len(v), fmt.Sprint(v...))
 	case "Blob":
 		return fmt.Sprintf("c.Blob(%d,%q,%q)", a.code, a.ct, a.data)
 	case "Stream":
@@ -368,7 +389,7 @@ func (a action) coq() string {
 	case "Unwrap":
 		return "CUnwrap"
 	case "String":
-		return fmt.Sprintf("CString %s %s", zlit(a.code), hx.Bytes(a.data))
+		return fmt.Sprintf("CString %s %s", zlit(a.code), hx.Bytes(a.strExpected()))
 	case "Blob":
 		return fmt.Sprintf("CBlob %s %s %s", zlit(a.code), hx.Bytes(a.ct), hx.Bytes(a.data))
 	case "Stream":
@@ -465,7 +486,8 @@ func perform(c fox.Context, under http.ResponseWriter, a action) (n int64, cls s
 			err = errors.New("Unwrap does not return the underlying writer")
 		}
 	case "String":
-		err = c.String(a.code, "%s", a.data)
+		f, v := a.strCall()
+		err = c.String(a.code, f, v...)
 	case "Blob":
 		err = c.Blob(a.code, a.ct, []byte(a.data))
 	case "Stream":
@@ -629,6 +651,17 @@ func main() {
 		{op: "Stream", code: 200, ct: "text/c14", src: srcSpec{data: "wt", wt: true}},
 		{op: "Redirect", code: 302, data: "/new"}, {op: "Redirect", code: 299, data: "/new"},
 		{op: "Redirect", code: 308, data: "https://example.com/a?b=c"}, {op: "Redirect", code: 309, data: "/new"},
+		// String with formats that fmt must process: no arguments (%% -> %, a stray verb -> %!d(MISSING)),
+		// too few, matching and too many arguments, the empty format
+		{op: "String", code: 200, isFmt: true, format: "100%% done"},
+		{op: "String", code: 200, isFmt: true, format: "rate=%d"},
+		{op: "String", code: 201, isFmt: true, format: "%s=%d", fargs: []any{"k", 7}},
+		{op: "String", code: 200, isFmt: true, format: "%s and %s", fargs: []any{"a"}},
+		{op: "String", code: 200, isFmt: true, format: "plain", fargs: []any{"extra"}},
+		{op: "String", code: 204, isFmt: true, format: ""},
+		// empty payloads and an empty content type
+		{op: "Blob", code: 200, ct: "", data: ""},
+		{op: "Stream", code: 200, ct: "text/c14", src: srcSpec{}},
 	}
 	var defs strings.Builder
 	for _, k := range kinds {
@@ -810,6 +843,7 @@ func main() {
 		return s
 	}
 	cts := []string{"text/plain", "application/json", "", "text/html; charset=utf-8"}
+	sfmts := []string{"plain text", "100%% done", "rate=%d", "%d items", "%s=%d", "%s and %s", "%v%%", "", "%", "%s", "a%%b%%c", "%5.1f|%x"}
 	urls := []string{"/new", "https://example.com/x", "/a/b/", "/q?x=1&y=<2>"}
 	rcodes := []int{299, 300, 301, 302, 303, 304, 305, 306, 307, 308, 309, 200, 404}
 	ract := func() action {
@@ -839,6 +873,20 @@ func main() {
 			a = action{op: "Unwrap"}
 		case p < 86:
 			a = action{op: "String", code: hx.Pick(rnd, codes[5:12]), data: rstr(6)}
+			if rnd.Pct(70) {
+				a.isFmt = true
+				a.format = hx.Pick(rnd, sfmts)
+				for k := rnd.Intn(3); k > 0; k-- {
+					if rnd.Bool() {
+						a.fargs = append(a.fargs, rstr(3))
+					} else {
+						a.fargs = append(a.fargs, rnd.Intn(100))
+					}
+				}
+			}
+			if rnd.Pct(15) {
+				a.code = hx.Pick(rnd, codes)
+			}
 		case p < 90:
 			a = action{op: "Blob", code: hx.Pick(rnd, codes[5:12]), ct: hx.Pick(rnd, cts), data: rstr(6)}
 		case p < 95:
